@@ -1542,7 +1542,8 @@ class SecurityBase(Node):
             if self.integer_positions:
                 # always round down: buying fewer or selling more units is
                 # what keeps the outlay within the amount, long or short
-                q = math.floor(q)
+                # (kept a float: numpy cannot test a huge Python int for NaN)
+                q = float(math.floor(q))
 
         # if q is 0 nothing to do
         if is_zero(q) or np.isnan(q):
@@ -1623,7 +1624,7 @@ class SecurityBase(Node):
         last_amount_short = amount_short(lo)
         i = 0
         while not fits(lo):
-            step = max(2 * step, math.ceil(last_amount_short / unit))
+            step = max(2 * step, float(math.ceil(last_amount_short / unit)))
             lo = lo - step
             now_amount_short = amount_short(lo)
             if now_amount_short > last_amount_short:
@@ -1641,7 +1642,7 @@ class SecurityBase(Node):
             step = 2 * step
             hi = lo + step
         while hi - lo > 1:
-            mid = math.floor((lo + hi) / 2)
+            mid = float(math.floor((lo + hi) / 2))
             if mid <= lo or mid >= hi:
                 # quantities this large are further apart than one unit
                 break
@@ -1650,7 +1651,7 @@ class SecurityBase(Node):
             else:
                 hi = mid
 
-        return lo
+        return float(lo)
 
     @cy.locals(
         q=cy.double,
